@@ -720,7 +720,9 @@ def c09(obs: Observer):
             t = obs.unchanged()
             if t is not None:
                 return (f're-sent-{ws[0]}-changed-state', f're-sending `{obs.op}` (answered {accepted[0]} before) changed table {t}')
-            if ws[0] in ('createBatch', 'createUpdate') and obs.ans != accepted[0]:
+            deleted = ws[0] == 'createUpdate' and (p.batches.get(int(ws[1])) or {}).get('deleted')
+            # (a deleted batch answers 404 to everything, also to a re-sent update request: repo commit 4c50f4344)
+            if ws[0] in ('createBatch', 'createUpdate') and obs.ans != accepted[0] and not deleted:
                 return (f're-sent-{ws[0]}-answered-differently', f're-sending `{obs.op}` answered {obs.ans}, first answer {accepted[0]}')
     per: Dict[int, List[dict]] = {}
     for (b, u), r in v.updates.items():
